@@ -10,49 +10,75 @@ def unhx (s : String) : String :=
 structure DS where
   sys : Sys := { m := 1 }
   nextVal : Nat := 100
-  holders : List Nat := []      -- values whose context was handed out, in order
-  waiting : Nat := 0
-  failAcq : Option Nat := none   -- the next acquire script on this key fails with a server error
+  holders : List Nat := []          -- values whose context was handed out, in order
+  hlock : List (Nat × Nat) := []    -- value -> Locker index
+  sent : List Nat := []             -- holders whose last monitor has sent the explicit gate token
+  waiters : List (Nat × Nat) := []  -- pending WithContext calls: (waiter id, Locker index)
+  nextW : Nat := 0
+  failAcq : Option Nat := none      -- the next acquire script on this key fails with a server error
   sib : Sib.St := { noloop := true }
   name : String := "L"
+
+def DS.waiting (d : DS) : Nat := d.waiters.length
 
 def runningIdx (s : Sys) (v : Nat) : List Nat := (List.range s.n).filter fun i => (s.hs v).mons i == .running
 
 /-- one attempt of `try` with value `v` on the canonical schedule: keys in order, nothing is
-attempted after the first refusal; success = `ret`, failure = cancel and let the monitors clean up -/
-def attempt (s : Sys) (v : Nat) (force : Bool) (failAcq : Option Nat) : Sys × Bool × Option Nat :=
-  let (s1, _, fa) := (List.range s.n).foldl (fun (acc : Sys × Bool × Option Nat) i =>
-    let (t, failed, fa) := acc
-    if failed then (next t (.skip v i), true, fa)
-    else if fa == some i then (next t (.acqErr v i), false, none)   -- an error, not ErrNotLocked: the next keys are tried
-    else if force then (next t (.force v i), false, fa)
-    else if t.regs i = none then (next t (.acq v i), false, fa)
-    else (next t (.acq v i), true, fa)) (s, false, failAcq)
+attempted after the first refusal (ErrNotLocked), an acquisition that fails with a server error
+does not stop the next keys; success = `ret`, failure = cancel and let the monitors clean up.
+Returns the state, success, the remaining armed acquire failure and the key that refused. -/
+def attempt (s : Sys) (v : Nat) (force : Bool) (failAcq : Option Nat) : Sys × Bool × Option Nat × Option Nat :=
+  let (s1, ref, fa) := (List.range s.n).foldl (fun (acc : Sys × Option Nat × Option Nat) i =>
+    let (t, ref, fa) := acc
+    if ref.isSome then (next t (.skip v i), ref, fa)
+    else if fa == some i then (next t (.acqErr v i), none, none)
+    else if force then (next t (.force v i), none, fa)
+    else if t.regs i = none then (next t (.acq v i), none, fa)
+    else (next t (.acq v i), some i, fa)) (s, none, failAcq)
   let s2 := next s1 (.ret v)
-  if live s2 v then (s2, true, fa)
+  if live s2 v then (s2, true, fa, ref)
   else
     let s3 := next s2 (.release v)
-    ((runningIdx s3 v).foldl (fun t i => next t (.mon v i)) s3, false, fa)
+    ((runningIdx s3 v).foldl (fun t i => next t (.mon v i)) s3, false, fa, ref)
 
 /-- every monitor that has something to do (context cancelled, or its key is no longer ours) runs -/
 def monitorsOnce (s : Sys) (vals : List Nat) : Sys :=
   vals.foldl (fun t v => (runningIdx t v).foldl (fun u i =>
     if (u.hs v).cancelled || u.regs i != some v then next u (.mon v i) else u) t) s
 
+/-- an attempt of waiter (w, L): on success it becomes a holder, otherwise it parks on the key that
+refused it, or — if only server errors stopped it — on nothing -/
+def waiterTry (d : DS) (w L : Nat) : DS :=
+  let v := d.nextVal
+  let (t, ok, fa, ref) := attempt d.sys v false d.failAcq
+  if ok then
+    { d with sys := t, nextVal := v + 1, failAcq := fa, holders := d.holders ++ [v], hlock := (v, L) :: d.hlock,
+             waiters := d.waiters.filter (·.1 != w) }
+  else
+    let t' := match ref with
+      | some i => next t (.park w i)
+      | none => next t (.parkErr w)
+    { d with sys := t', nextVal := v + 1, failAcq := fa }
+
+def allExited (s : Sys) (v : Nat) : Bool := (List.range s.n).all fun i => (s.hs v).mons i == .exited
+
+def settleRound (d : DS) : DS :=
+  let d1 := { d with sys := monitorsOnce d.sys d.holders }
+  -- explicit gate send of a successful lock that has let go of everything, to the waiters of its Locker
+  let d2 := d1.holders.foldl (fun (x : DS) v =>
+    if allExited x.sys v && !x.sent.contains v then
+      let L := ((x.hlock.find? (·.1 == v)).map (·.2)).getD 1000
+      { x with sent := v :: x.sent,
+               sys := (x.waiters.filter (·.2 == L)).foldl (fun t wl => next t (.gate wl.1)) x.sys }
+    else x) d1
+  -- waiters holding a gate token try again
+  d2.waiters.foldl (fun (x : DS) wl =>
+    if (x.sys.ws wl.1).parked && (x.sys.ws wl.1).token then waiterTry { x with sys := next x.sys (.wake wl.1) } wl.1 wl.2
+    else x) d2
+
 def settleLoop (d : DS) : Nat → DS
   | 0 => d
-  | fuel + 1 =>
-    let s1 := monitorsOnce d.sys d.holders
-    -- waiters retry (a retry that is refused leaves no trace)
-    let (d2, changed) := (List.range d.waiting).foldl (fun (acc : DS × Bool) _ =>
-      let (x, ch) := acc
-      let (t, ok, fa) := attempt x.sys x.nextVal false x.failAcq
-      if ok then ({ x with sys := t, nextVal := x.nextVal + 1, holders := x.holders ++ [x.nextVal], waiting := x.waiting - 1, failAcq := fa }, true)
-      else ({ x with sys := t, nextVal := x.nextVal + 1, failAcq := fa }, ch || fa != x.failAcq)) ({ d with sys := s1 }, false)
-    let liveBefore := d.holders.filter (fun v => live d.sys v)
-    let liveAfter := d2.holders.filter (fun v => live d2.sys v)
-    if changed || liveBefore != liveAfter || (d2.holders.any fun v => (runningIdx d2.sys v).any fun i =>
-        (d2.sys.hs v).cancelled || d2.sys.regs i != some v) then settleLoop d2 fuel else d2
+  | fuel + 1 => settleLoop (settleRound d) fuel
 
 def stateStr (d : DS) : String :=
   let s := d.sys
@@ -62,7 +88,7 @@ def stateStr (d : DS) : String :=
   let free := if lives.length == 0 && d.waiting == 0 then (if held == 0 then "1" else "0") else "-"
   s!"live={lives.length} waiting={d.waiting} maj={if maj then "1" else "0"} idle-free={free}"
 
-def fin (d : DS) : DS × String := let d' := settleLoop d 50; (d', stateStr d')
+def fin (d : DS) : DS × String := let d' := settleLoop d 12; (d', stateStr d')
 
 def ownersStr (s : Sys) : String :=
   ",".intercalate ((List.range s.n).map fun i => match s.regs i with | some v => toString v | none => "-")
@@ -100,12 +126,16 @@ def step (d : DS) (ws : List String) : DS × String :=
       | _ => (r, "bad-op")
     let s' := { d.sys with regs := upd d.sys.regs i r' }
     ({ d with sys := s' }, rep ++ " " ++ ownersStr s')
-  | "try" :: _ =>
-    let (t, ok, fa) := attempt d.sys d.nextVal false d.failAcq
-    fin { d with sys := t, nextVal := d.nextVal + 1, holders := if ok then d.holders ++ [d.nextVal] else d.holders, failAcq := fa }
-  | "force" :: _ =>
-    let (t, ok, fa) := attempt d.sys d.nextVal true d.failAcq
-    fin { d with sys := t, nextVal := d.nextVal + 1, holders := if ok then d.holders ++ [d.nextVal] else d.holders, failAcq := fa }
+  | "try" :: l :: _ =>
+    let (t, ok, fa, _) := attempt d.sys d.nextVal false d.failAcq
+    fin { d with sys := t, nextVal := d.nextVal + 1, failAcq := fa,
+                 holders := if ok then d.holders ++ [d.nextVal] else d.holders,
+                 hlock := if ok then (d.nextVal, l.toNat?.getD 0) :: d.hlock else d.hlock }
+  | "force" :: l :: _ =>
+    let (t, ok, fa, _) := attempt d.sys d.nextVal true d.failAcq
+    fin { d with sys := t, nextVal := d.nextVal + 1, failAcq := fa,
+                 holders := if ok then d.holders ++ [d.nextVal] else d.holders,
+                 hlock := if ok then (d.nextVal, l.toNat?.getD 0) :: d.hlock else d.hlock }
   | ["sib.setup"] => sibOut d [.park 0, .park 0]
   | ["sib.hdel", i] =>
     -- the holder's deletion, then (while the first attempt's cleanup is held back) whoever is woken attempts
@@ -121,7 +151,10 @@ def step (d : DS) (ws : List String) : DS × String :=
     ({ d with sib := s1 }, sibStr s1)
   | ["failacq", i] => fin { d with failAcq := some (i.toNat?.getD 0) }
   | ["extset", i] => fin { d with sys := next d.sys (.extset (i.toNat?.getD 0) 0) }
-  | "with" :: _ => fin { d with waiting := d.waiting + 1 }
+  | "with" :: l :: _ =>
+    let w := d.nextW
+    let L := l.toNat?.getD 0
+    fin (waiterTry { d with nextW := w + 1, waiters := d.waiters ++ [(w, L)] } w L)
   | ["release"] =>
     match d.holders.find? (fun v => live d.sys v) with
     | some v => fin { d with sys := next d.sys (.release v) }
